@@ -45,7 +45,8 @@ def _probe_spec(rng, klass):
     if not spot:
         cfg.update(futures_leverage=rng.choice([2, 5]), futures_leverage_mode=rng.choice(['cross', 'isolated']))
     spec = specgen.random_session(rng, minutes=rng.choice([300, 420]), exch_type=cfg['type'], nsym=rng.choice([1, 1, 2]),
-                                  tfs=['1m', '5m', '15m'], data_tfs=['15m', '1h'], warmup=240, fast=rng.random() < 0.4)
+                                  tfs=['1m', '5m', '15m'], data_tfs=['15m', '1h'], warmup=rng.choice([240, 240, 0]),
+                                  fast=rng.random() < 0.4)
     spec['config'] = cfg
     for r in spec['routes']:
         sc = r['script']
@@ -90,9 +91,15 @@ def _history(rng, probe, n, first_dim=None):
         elif k == 'balance':
             cfg['starting_balance'] = rng.choice([500, 123456])
         elif k == 'warmup':
-            h['warmup'] = 120
-            for s in h['candles']:
-                h['candles'][s]['n'] = h['candles'][s]['n'] - 120
+            if probe['warmup'] == 0:
+                # the probe runs without warm-up candles (warm_up_candles: 0); the earlier call uses a non-zero size
+                h['warmup'] = rng.choice([60, 120, 240])
+                for s in h['candles']:
+                    h['candles'][s]['n'] = h['candles'][s]['n'] + h['warmup']
+            else:
+                h['warmup'] = 120
+                for s in h['candles']:
+                    h['candles'][s]['n'] = h['candles'][s]['n'] - 120
         elif k == 'routes':
             h['routes'] = h['routes'][:1]
             h['routes'][0]['timeframe'] = rng.choice(['3m', '30m'])
@@ -118,12 +125,18 @@ def _history(rng, probe, n, first_dim=None):
             # optional outputs of an earlier call (generate_logs switches the debug mode on; log files go to the scratch cwd)
             h['options'] = {o: True for o in rng.sample(['generate_logs', 'generate_equity_curve', 'generate_hyperparameters',
                                                          'generate_json', 'generate_csv', 'generate_tradingview'], rng.randint(1, 3))}
+        if probe['warmup'] == 0 and h['warmup'] == 0 and k != 'warmup' and rng.random() < 0.5:
+            # a probe without warm-up candles: half of the earlier calls run with a warm-up of their own
+            h['warmup'] = rng.choice([60, 120])
+            for s in h['candles']:
+                h['candles'][s]['n'] = h['candles'][s]['n'] + h['warmup']
+            dims.add('warmup')
         for s in h['candles'].values():
             s['seed'] = rng.randrange(1 << 30)
         for r in h['routes']:
             r['script']['seed'] = rng.randrange(1 << 30)
         h['no_isolate'] = True
-        h['dims'] = [k]
+        h['dims'] = [k] + (['warmup'] if h['warmup'] != probe['warmup'] and k != 'warmup' else [])
         hist.append(h)
     return hist, sorted(dims)
 
